@@ -25,6 +25,10 @@ def run_crash(blocks, tag, timeout=1800, cmd="crash"):
                 begun = None
             elif rest.startswith("output "):
                 results[cid]["output"].append(rest[7:])
+            elif rest.startswith("copydiff "):
+                results[cid].setdefault("copydiff", []).append(rest[9:])
+            elif rest == "copychecked":
+                results[cid]["copychecked"] = True
         os.remove(cf)
         if rc == 0 or begun is None:
             break
